@@ -10,6 +10,8 @@ TB_COMMON = [
 PROPS = {}
 NOT_APPLICABLE = {}
 HOOK_COMMITS = []
+# properties whose check exists in the tree but is not yet claimed (still being built / reviewed)
+NOT_READY = {"C13", "C15", "C19"}
 
 PROPS["C14"] = dict(
     level="proof",
